@@ -24,6 +24,7 @@ func TestC12Eviction(t *testing.T) {
 type evEntry struct {
 	key    string
 	metric int64
+	expiry int64
 }
 
 func propEviction(c *Case) {
@@ -38,7 +39,9 @@ func propEviction(c *Case) {
 		useNeeded  bool
 	)
 
-	trigger := c.Weighted("trigger", 5, 2, 1, 1, 1)
+	var sysLimit uint64
+
+	trigger := c.Weighted("trigger", 5, 2, 1, 1, 1, 1)
 
 	switch trigger {
 	case 0:
@@ -49,6 +52,17 @@ func propEviction(c *Case) {
 		heapLimit = 1
 	case 3:
 		heapLimit = math.MaxUint64 / 2
+	case 5:
+		sysLimit = math.MaxUint64 / 2 // configured but never exceeded
+	}
+
+	// a memory limit that is configured but never exceeded must not change anything
+	if trigger <= 1 && c.Weighted("unreached-memory-limit", 3, 1, 1) > 0 {
+		if c.Bool("which-memory-limit") {
+			sysLimit = math.MaxUint64 / 2
+		} else {
+			heapLimit = math.MaxUint64 / 2
+		}
 	}
 
 	if trigger == 0 && c.Weighted("also", 3, 1) == 1 {
@@ -73,8 +87,8 @@ func propEviction(c *Case) {
 	c.Class("backend=" + kind)
 	c.Class("strategy=" + stratName)
 	c.Class(fmt.Sprintf("trigger=%d", trigger))
-	c.Tracef("backend=%s strategy=%s CountSoftLimit=%d HeapInUseSoftLimit=%d EvictionNeeded=%v EvictFraction=%v cycles=%d",
-		kind, stratName, limit, heapLimit, needScript, frac, cycles)
+	c.Tracef("backend=%s strategy=%s CountSoftLimit=%d HeapInUseSoftLimit=%d SysMemSoftLimit=%d EvictionNeeded=%v EvictFraction=%v cycles=%d",
+		kind, stratName, limit, heapLimit, sysLimit, needScript, frac, cycles)
 
 	c.Bubble(func() {
 		tr := newCountTracker()
@@ -86,7 +100,7 @@ func propEviction(c *Case) {
 			Name: "ev", Stats: tr, ItemsCountReportInterval: farFuture,
 			TimeToLive: 1000 * time.Hour, ExpirationJitter: -1,
 			DeleteExpiredJobInterval: interval, DeleteExpiredAfter: farFuture,
-			CountSoftLimit: limit, HeapInUseSoftLimit: heapLimit, EvictFraction: frac, EvictionStrategy: strategy,
+			CountSoftLimit: limit, HeapInUseSoftLimit: heapLimit, SysMemSoftLimit: sysLimit, EvictFraction: frac, EvictionStrategy: strategy,
 		}
 		if useNeeded {
 			cfg.EvictionNeeded = func() bool {
@@ -136,6 +150,17 @@ func propEviction(c *Case) {
 					}
 
 					e.metric = time.Now().Add(ttl).UnixNano()
+				} else if c.Weighted("short-lived", 3, 1) == 1 {
+					// served while fresh, expired (but not deleted) by the time of the cleanup cycle:
+					// the rank is still the one earned by the fresh serves
+					ttl = 30 * time.Minute
+					c.Class("entry-expires-before-cycle")
+				}
+
+				if ttl != 0 {
+					e.expiry = time.Now().Add(ttl).UnixNano()
+				} else {
+					e.expiry = time.Now().Add(1000 * time.Hour).UnixNano()
 				}
 
 				err := be.Write(ttlCtx(ttl), []byte(k), "v"+k)
@@ -157,6 +182,10 @@ func propEviction(c *Case) {
 					k := keys[c.Pick("rk", len(keys))]
 					if strategy == cache.EvictLeastRecentlyUsed {
 						time.Sleep(time.Duration(c.Int("gap", 0, 3)) * time.Millisecond) // gap 0 => ties
+					}
+
+					if pop[k].expiry <= time.Now().UnixNano()+int64(time.Second) {
+						continue // fresh reads only
 					}
 
 					r := be.Read(bg, []byte(k))
@@ -197,7 +226,7 @@ func propEviction(c *Case) {
 			nBefore := len(pop)
 			removed := nBefore - len(kept)
 			countBreach := limit > 0 && nBefore > int(limit)
-			otherBreach := heapLimit == 1 || (useNeeded && needScript[cycle])
+			otherBreach := heapLimit == 1 || (useNeeded && needScript[cycle]) // unreached memory limits never count
 			breach := countBreach || otherBreach
 			evicted := int(tr.get("ev", cache.MetricEvict) - evBefore)
 
